@@ -9,7 +9,8 @@ import os, subprocess, json, random, time
 from . import gen
 
 ROOT = gen.ROOT
-TARGET = os.path.join(ROOT, "out", "replay-target")
+TARGET = os.path.join(os.environ.get("VERIF_OUT") or os.path.join(ROOT, "out"), "replay-target")
+CRATE = os.environ.get("VERIF_REPLAY_CRATE") or os.path.join(ROOT, "replay")     # tools/par_matrix.sh points this at a copy whose path dependency is a scratch copy of /repo
 BIN = os.path.join(TARGET, "release", "verif-replay")
 
 
@@ -24,7 +25,7 @@ class Driver:
         env["CARGO_TARGET_DIR"] = TARGET
         if os.environ.get("VERIF_HOOKS", "1") == "1":
             env["RUSTFLAGS"] = (env.get("RUSTFLAGS", "") + " --cfg simfony_verif").strip()
-        p = subprocess.run(["cargo", "build", "--release", "--offline"], cwd=os.path.join(ROOT, "replay"),
+        p = subprocess.run(["cargo", "build", "--release", "--offline"], cwd=CRATE,
                            stdout=subprocess.PIPE, stderr=subprocess.STDOUT, text=True, env=env)
         self.build_log = p.stdout[-3000:]
         return p.returncode == 0
@@ -378,6 +379,30 @@ class ScopeGen:
     def let(self, env, depth):
         """emit a let; updates env AFTER evaluating the right-hand side (rhs sees only earlier bindings)"""
         k = self.rng.random()
+        if k < 0.08:
+            # a binding that introduces no name still occupies a slot of the environment
+            if self.rng.random() < 0.5:
+                e, v = self.expr(env, depth)
+                return "let _: u8 = %s;" % e
+            return "let _: %s = %d;" % (self.rng.choice(["u16", "u32", "(u8, u16)", "[u8; 0]", "()"]).replace("(u8, u16)", "u64").replace("[u8; 0]", "u1").replace("()", "u128"), self.rng.randint(0, 1))
+        if k < 0.14:
+            # a name rebound at another width: not usable as u8 any more
+            x = self.rng.choice(self.names)
+            env.pop(x, None)
+            return "let %s: u16 = %d;" % (x, 256 + self.fresh_lit())
+        if k < 0.22:
+            # nested tuple pattern with an ignored component
+            xs = self.rng.sample(self.names, 2)
+            e1, v1 = self.expr(env, depth); e2, v2 = self.expr(env, depth); e3, v3 = self.expr(env, depth)
+            form = self.rng.randrange(3)
+            if form == 0:
+                env[xs[0]] = v1; env[xs[1]] = v3
+                return "let ((%s, _), %s): ((u8, u8), u8) = ((%s, %s), %s);" % (xs[0], xs[1], e1, e2, e3)
+            if form == 1:
+                env[xs[0]] = v2; env[xs[1]] = v3
+                return "let (_, (%s, %s)): (u8, (u8, u8)) = (%s, (%s, %s));" % (xs[0], xs[1], e1, e2, e3)
+            env[xs[0]] = v2
+            return "let [_, %s, _]: [u8; 3] = [%s, %s, %s];" % (xs[0], e1, e2, e3)
         if k < 0.5:
             x = self.rng.choice(self.names)
             e, v = self.expr(env, depth)
@@ -639,7 +664,12 @@ def search_layout(drv, rng, budget):
         got = drv.call("struct_type", hx(ty.text())); exp = "ok " + show_final(ty.layout())
         if got != exp:
             return {"call": "StructuralType::from(&ResolvedType)", "input": {"type": ty.text()}, "op": ["struct_type", hx(ty.text())], "expected": exp, "observed": got}
-    for ty in types[:: 2]:
+    # sums whose sides have the same type / layout: the side must come from the tag, never from the payload's type
+    same = [Ty("either", Ty("uint", 8), Ty("uint", 8)), Ty("either", Ty("tuple", [Ty("uint", 8), Ty("uint", 8)]), Ty("tuple", [Ty("uint", 8), Ty("uint", 8)])),
+            Ty("tuple", [Ty("uint", 16), Ty("either", Ty("uint", 8), Ty("uint", 8))]), Ty("either", Ty("bool"), Ty("bool")),
+            Ty("either", Ty("uint", 8), Ty("array", Ty("uint", 4), 2)), Ty("option", Ty("either", Ty("tuple", []), Ty("tuple", []))),
+            Ty("array", Ty("either", Ty("uint", 1), Ty("uint", 1)), 3), Ty("list", Ty("either", Ty("uint", 8), Ty("uint", 8)), 4)]
+    for ty in same * 3 + types[:: 2]:
         for _ in range(2):
             txt, bits = gen_value(rng, ty)
             got = drv.call("struct_value", hx(txt), hx(ty.text()))
@@ -653,9 +683,18 @@ def search_layout(drv, rng, budget):
              Ty("tuple", [Ty("uint", 16), Ty("uint", 8)]), Ty("tuple", [Ty("uint", 8), Ty("uint", 16)]), Ty("either", Ty("uint", 8), Ty("uint", 8)),
              Ty("tuple", [Ty("bool"), Ty("uint", 8)]), Ty("option", Ty("uint", 1)), Ty("uint", 2), Ty("bool"), Ty("uint", 1), Ty("option", Ty("tuple", [])),
              Ty("array", Ty("uint", 8), 12), Ty("tuple", [Ty("uint", 32), Ty("uint", 64)]), Ty("list", Ty("uint", 8), 2), Ty("option", Ty("uint", 8))]
-    pairs = [(s, t) for s in small for t in small]
-    rng.shuffle(pairs)
-    for s, t in pairs[: max(200, budget // 2)]:
+    # degenerate layouts: the empty array / empty tuple is unit for every element type, a 1-array / 1-tuple is its element
+    small += [Ty("array", Ty("uint", 8), 0), Ty("array", Ty("uint", 16), 0), Ty("tuple", []), Ty("array", Ty("array", Ty("uint", 8), 0), 3),
+              Ty("array", Ty("array", Ty("bool"), 0), 3), Ty("array", Ty("tuple", []), 2), Ty("array", Ty("uint", 8), 1), Ty("tuple", [Ty("uint", 8)]),
+              Ty("array", Ty("uint", 16), 1), Ty("option", Ty("array", Ty("uint", 32), 0)), Ty("array", Ty("uint", 4), 4), Ty("array", Ty("uint", 2), 8),
+              Ty("tuple", [Ty("array", Ty("uint", 8), 0), Ty("uint", 8)]), Ty("list", Ty("array", Ty("uint", 8), 0), 4), Ty("list", Ty("tuple", []), 4)]
+    allpairs = [(s, t) for s in small for t in small]
+    # every pair of equal layouts (the accepting side is sparse) + a sample of the others
+    pairs = [p for p in allpairs if p[0].layout() == p[1].layout()]
+    others = [p for p in allpairs if p[0].layout() != p[1].layout()]
+    rng.shuffle(others)
+    pairs += others[: max(150, budget // 2)]
+    for s, t in pairs:
         vtxt, _ = gen_value(rng, s)
         src = "fn main() {\n    let x: %s = %s;\n    let y: %s = <%s>::into(x);\n}\n" % (s.text(), vtxt, t.text(), s.text())
         got = drv.call("run", hx(src), hx(""), hx(""), "0")
@@ -825,6 +864,26 @@ def search_debug(drv, rng, budget):
         if bad:
             return {"call": "CompiledProgram::new(.., debug symbols on/off)", "input": {"program": src}, "op": ["debug_info", hx(src), hx("")],
                     "expected": bad, "observed": got[:400]}
+    return None
+
+
+@searcher("reconstruct/")
+def search_reconstruct(drv, rng, budget):
+    """C14 (value of a dbg! argument): Value::reconstruct(StructuralValue::from(v), type(v)) == v for random values of ~100 random
+    types (depth <= 2) and for sums whose two sides have the same type (the side must be read from the tag)"""
+    U8 = Ty("uint", 8)
+    same = [Ty("either", U8, U8), Ty("either", Ty("tuple", [U8, U8]), Ty("tuple", [U8, U8])), Ty("tuple", [Ty("uint", 16), Ty("either", U8, U8)]),
+            Ty("either", Ty("bool"), Ty("bool")), Ty("either", U8, Ty("array", Ty("uint", 4), 2)), Ty("option", Ty("either", Ty("tuple", []), Ty("tuple", []))),
+            Ty("array", Ty("either", Ty("uint", 1), Ty("uint", 1)), 3), Ty("list", Ty("either", U8, U8), 4), Ty("option", Ty("option", U8)),
+            Ty("either", Ty("option", U8), Ty("option", U8))]
+    types = same * 4 + [gen_type(rng, 2) for _ in range(min(100, budget // 4))]
+    for ty in types:
+        for _ in range(2):
+            txt, bits = gen_value(rng, ty)
+            got = drv.call("struct_value", hx(txt), hx(ty.text()))
+            if not got.startswith("ok ") or "reconstruct=true" not in got:
+                return {"call": "Value::reconstruct(StructuralValue::from(&v), ty)", "input": {"value": txt, "type": ty.text()},
+                        "op": ["struct_value", hx(txt), hx(ty.text())], "expected": "ok ... reconstruct=true", "observed": got}
     return None
 
 
